@@ -71,7 +71,16 @@ P.update({
             "Termination is bounded (60 s x3 for inputs <= 64 KiB); nesting beyond 200 is outside the stated bound.", "4 C12"),
 })
 
-CLAIMED = ["C01", "C02", "C03", "C04", "C05", "C06", "C07", "C10", "C11", "C12", "C13", "C14", "C15", "C17"]
+P.update({
+    "C19": ("fault_enumeration", "fault injection against the real certification server process: every single-field mutation / flag combination / wrong position / bad client id for a client brought canonically to each step; reply classifier as oracle",
+            "For each of the 13 steps a fresh client id is brought canonically to that step (canonical requests are derived by running the flow) and then sent one deviating request: each leaf changed, retyped to every other JSON type or removed, containers retyped / elements added, removed, swapped / keys added / structs written as positional arrays, all 7 non-canonical more/oneway/upgrade combinations, every other step's request, unknown/empty/foreign ids (thorough: pairs of mutations). Any reply without an error member is a violation; negative controls must still pass; 1-16 concurrent canonical clients must all succeed.",
+            "'Deviation' is defined on JSON values by the harness; serde-level equivalences that are documented negative controls are excluded.", "4 C19"),
+    "C20": ("exploration", "differential runtime monitor: scripted Python fake service vs stdout/stderr/exit status of the real `varlink call` binary, parsed by an independent JSON parser",
+            "Scripted reply streams (nested values, escape-heavy and non-ASCII strings, ESC bytes, integers to u64::MAX, floats, absent parameters; k continues + final result/standard error/custom error/close) are served by a Python fake service over five address forms (deep unix path, ;mode=, abstract, TCP, via a fake resolver) and read back through `varlink call [--more] --color on|off`: stdout parsed as a JSON value sequence must equal the successful replies' parameters with JSON number kinds, exit status 0 iff complete and error-free, error name and parameters on stderr.",
+            "Floats restricted to the exactly round-tripping domain; the fake service is the harness' own.", "4 C20"),
+})
+
+CLAIMED = ["C01", "C02", "C03", "C04", "C05", "C06", "C07", "C10", "C11", "C12", "C13", "C14", "C15", "C17", "C19", "C20"]
 
 ALL = ["C%02d" % i for i in range(1, 21)]
 
@@ -86,7 +95,7 @@ def main():
             "thorough_cmd": "bin/check %s thorough" % pid,
             "evidence_file": "evidence/%s.json" % pid,
             "replay_cmd_template": "bin/check %s quick --replay {path}" % pid,
-            "engine": "harness",
+            "engine": "py" if pid in ("C08", "C09", "C16", "C18", "C19", "C20") else "harness",
             "level_claimed": {"category": cat, "text": text, "design_ref": "DESIGN.md section " + ref},
             "level_note": note,
             "technique": tech,
